@@ -14,7 +14,7 @@ E3 = 'sched'
 
 T = {
  'C01': (E1, 'exploration', '4/C01',
-         'bounded-exhaustive enumeration of every grammar sentence up to the length bound under all 2^k truth assignments, plus complete lexical-variant, redundant-parenthesis, list-of-lists and deep-operator-word families, decided on the real Enforcer and compared with a reference parser/evaluator',
+         'bounded-exhaustive enumeration of every grammar sentence up to the length bound under all 2^k truth assignments, plus complete lexical-variant, redundant-parenthesis, list-of-lists and deep-operator-word families, decided on the real Enforcer and compared with a reference parser/evaluator; plus stateless schedule exploration (two threads sharing the enforcer / parser, every schedule with <=1 preemption, thorough <=2, at the line boundaries of the library)',
          'Every rule text / list value inside the stated bounds is executed on the working tree and compared with an independent reference evaluator under all assignments; nothing is sampled. Right level because mis-parses need specific short shapes, all of which lie inside the bound.',
          'Trusts the reference grammar model (cross-checked by DP count and brute force), CPython, oslo.config. Leaves are role: checks; bounds as in evidence.'),
  'C02': (E1, 'exploration', '4/C02',
@@ -26,15 +26,15 @@ T = {
          'The space in the quantifier is finite and enumerated completely.',
          'Reference store model R-store; three delivery routes.'),
  'C04': (E1, 'exploration', '4/C04',
-         'exhaustive enumeration of role names, placeholder forms, targets and role lists over a mixed-case/non-ASCII alphabet against a reference membership model',
+         'exhaustive enumeration of role names, placeholder forms, targets and role lists over a mixed-case/non-ASCII alphabet against a reference membership model; plus stateless schedule exploration (two threads sharing the enforcer / parser, every schedule with <=1 preemption, thorough <=2, at the line boundaries of the library)',
          'All strings up to the length bound over the alphabet, all role lists up to the size bound.',
          'Alphabet limited to characters with one-to-one case maps, as the property states.'),
  'C05': (E1, 'exploration', '4/C05',
-         'exhaustive enumeration of all credential trees up to a node bound x all literal/path left sides x right sides, against an iterative frontier-walk reference model',
+         'exhaustive enumeration of all credential trees up to a node bound x all literal/path left sides x right sides, against an iterative frontier-walk reference model; plus stateless schedule exploration (two threads sharing the enforcer / parser, every schedule with <=1 preemption, thorough <=2, at the line boundaries of the library)',
          'Every nested credential structure up to the bound (count checked against a recurrence) is walked by the real GenericCheck and by an independent model.',
          'Replaces the random credential structures of the quantifier by all trees up to the bound.'),
  'C06': (E1, 'exploration', '4/C06',
-         'exhaustive enumeration of all acyclic rule graphs over a small name universe and body menu, all alias chains to depth 8, differential inlining, and recording custom checks',
+         'exhaustive enumeration of all acyclic rule graphs over a small name universe and body menu, all alias chains to depth 8, differential inlining, and recording custom checks; plus stateless schedule exploration (two threads sharing the enforcer / parser, every schedule with <=1 preemption, thorough <=2, at the line boundaries of the library)',
          'All rule sets in the bound are decided by the real enforcer and by store+language reference models; inlining compares real vs real.',
          'Body menu instead of random expressions; bounds in evidence.'),
  'C07': (E1, 'exploration', '4/C07',
